@@ -186,7 +186,8 @@ def note_nested(stats, a, proj, arg):
         return
     if a.startswith("bind"):
         stats["binds_on_nested"] += 1
-        stats["binds_into_deep_layout"] += any(deep_layout(circ[proj["pi"][i][0]]) for i in arg if 0 <= i < len(proj["pi"]))
+        owner = [n for n in circ for _ in paths(n)]          # flat index -> operator, from the reported trees (not from par_info)
+        stats["binds_into_deep_layout"] += any(deep_layout(owner[i]) for i in arg if 0 <= i < len(owner))
     elif a.startswith("copy"):
         stats["copies_of_nested"] += 1
     elif a == "expand":
@@ -272,7 +273,7 @@ def replay_history(h, cls, stats, compare=True):
         stats["acts"][a] = stats["acts"].get(a, 0) + 1
         projs = [project(x) for x in real]
         if t:
-            note_nested(stats, a, projs[t - 1], list(range(len(projs[t - 1]["pi"]))) if a.startswith("bindcur") else arg)
+            note_nested(stats, a, projs[t - 1], list(range(len(projs[t - 1]["all"]))) if a.startswith("bindcur") else arg)
         steps.append({"a": a, "t": t, "new": len(real) if new is not None else t, "arg": arg, "vals": vals, "res": res, "eq": eq, "heap": projs})
         if not compare:
             if res != "ok" and a != "set_tr" or (a == "set_tr" and res == "ok" and any(i < 0 or i >= len(projs[t - 1]["all"]) for i in arg)):
@@ -665,7 +666,7 @@ def run(tier, seed):
            "copies_of_tapes_with_nested_operators": stats["copies_of_nested"], "expansions_of_tapes_with_nested_operators": stats["expands_with_nested"],
            "expansions_where_decompose_recomputed_explicit_indices": stats["expand_explicit_indices_recomputed"],
            "cumulative_wall_s": phases, "model_drift": stats["drift"] + tdrift, "negative_controls_rejected": neg_ok, "trace_negative_control_kinds": kinds,
-           "model": {"module": "TapeParams", "invariants": INVS + ["Frame (action property)"],
+           "model": {"module": "TapeParams", "invariants": INVS + ["DeepBases (vacuity)", "Frame (action property)"],
                      "exhaustive": [{"depth": d, "bases": len(b)} for d, b in plan], "states_exhaustive": n_exh_states}}
     return CheckResult(coverage=cov, violations=viol, assumptions=[
         "indices are passed sorted to bind_new_parameters (every call site does)",
